@@ -90,6 +90,26 @@ func init() {
 			out = putSel(out, l, essenceOf(mt), ok)
 			return out
 		}
+		if ctor == 2 {
+			// an activity: who did what above its target; the target's own texts are inputs of the model (lib line)
+			v, err := pub.NewActivityFromObject(o, nil)
+			if err != nil {
+				return []int{1}
+			}
+			emitLib(pub.VerifDumpActivity(v)...)
+			lib := putText([]int{}, v.Target().Name())
+			for _, w := range widths {
+				lib = putText(lib, v.Target().String(w))
+				lib = putText(lib, v.Target().Preview(w))
+			}
+			emitLib(lib...)
+			out = putText([]int{0}, v.Name())
+			for _, w := range widths {
+				out = putText(out, v.String(w))
+				out = putText(out, v.Preview(w))
+			}
+			return out
+		}
 		x, err := pub.NewActorFromObject(o, nil)
 		if err != nil {
 			return []int{1}
